@@ -128,6 +128,38 @@ class Chip:
         self.fifo_overflows = 0
         self.role_change_ce_high = []  # times at which PRIM_RX was toggled while CE was high
 
+    def warm_start(self, seed):
+        """the state a previous program left behind: the MCU was reset, the radio kept its supply.  Every writable
+        configuration register holds some legal value, payloads sit in both FIFOs, event flags are latched, the
+        packet-id counter is anywhere; on the non-plus variant the feature registers may already be activated."""
+        import random
+        rng = random.Random(seed)
+        self.reg[0x00] = rng.choice([0x08, 0x0A, 0x0B, 0x0E, 0x0F, 0x7B, 0x3A, 0x5F, 0x02, 0x03])
+        self.reg[0x01] = rng.randrange(0x40)
+        self.reg[0x02] = rng.randrange(0x40)
+        self.reg[0x03] = rng.choice([1, 2, 3])
+        self.reg[0x04] = rng.randrange(0x100)
+        self.reg[0x05] = rng.randrange(126)
+        self.reg[0x06] = rng.choice([0x00, 0x02, 0x04, 0x06, 0x08, 0x0E, 0x20, 0x26, 0x27, 0x0F, 0x01])
+        for r in (0x0C, 0x0D, 0x0E, 0x0F):
+            self.reg[r] = rng.randrange(0x100)
+        for r in range(0x11, 0x17):
+            self.reg[r] = rng.randrange(33)
+        for r in (0x0A, 0x0B, 0x10):
+            self.areg[r] = bytearray(rng.randrange(256) for _ in range(5))
+        self.features_unlocked = self.plus or rng.random() < 0.6
+        if self.features_unlocked:
+            self.reg[0x1D] = rng.randrange(8)
+            self.reg[0x1C] = rng.randrange(0x40) if self.reg[0x1D] & 4 else 0
+        for _ in range(rng.randrange(4)):
+            self.rxf.append((bytes(rng.randrange(256) for _ in range(rng.randrange(1, 33))), rng.randrange(6)))
+        self.flags = rng.choice([0, 0x40, 0x20, 0x10, 0x60, 0x70])
+        self.pid = rng.randrange(4)
+        for _ in range(rng.randrange(4)):
+            self.txf.append(TxEntry(bytes(rng.randrange(256) for _ in range(rng.randrange(1, 33))), False, None, self.pid))
+            self.pid = (self.pid + 1) & 3
+        self.plos = rng.randrange(16)
+
     # ------------------------------------------------------------------ derived values
     def status(self):
         p = self.rxf[0][1] if self.rxf else 7
